@@ -74,6 +74,11 @@ type seqWorld struct {
 	garbage bool                       // the file is not a valid token stream
 	slot    string                     // tag remembered from an earlier successful get
 	hasSlot bool
+	// ver counts the changes of the token file (any change of its bytes, by
+	// the server or behind its back); slotVer is its value when the slot tag
+	// was read.  Staleness of the remembered tag is judged by these, never by
+	// comparing tags, so that a tag which fails to change is noticed.
+	ver, slotVer int
 	revoked map[string]string // real name -> "delete" | "sweep"
 	// HTTP driver: logical name -> real (server-chosen) name, and every real
 	// name ever bound -> a stable alias ("T1#2" = second incarnation of T1)
@@ -192,7 +197,7 @@ func (w *seqWorld) canon() string {
 	if !mt.IsZero() {
 		cachedTag = fmt.Sprintf("\"%v-%v\"", size, mt.UnixNano())
 	}
-	fmt.Fprintf(&b, " slot=%v/%v", valid, w.hasSlot && w.slot == cachedTag)
+	fmt.Fprintf(&b, " slot=%v/%v/%v", valid, w.hasSlot && w.slot == cachedTag, w.hasSlot && w.slotVer == w.ver)
 	// history the oracle still needs
 	fmt.Fprintf(&b, " revoked=")
 	var rs []string
@@ -287,6 +292,9 @@ func (w *seqWorld) Apply(o seqx.Op) *core.Violation {
 		w.ext(x)
 	default:
 		panic("unknown op " + x.K)
+	}
+	if fileBytes(tokenFile()) != before {
+		w.ver++
 	}
 	if v != nil {
 		return v
@@ -498,6 +506,10 @@ func (w *seqWorld) update(x op) (bool, *core.Violation) {
 	switch errClass(gerr) {
 	case "":
 		want := tag == curTag
+		if x.A == "stale" && w.hasSlot && w.slotVer != w.ver {
+			// the file changed since the tag was read, whatever the tags say
+			want = false
+		}
 		if w.http && x.A == "empty" {
 			want = true // no If-Match header: an unconditional overwrite
 		}
@@ -580,6 +592,9 @@ func (w *seqWorld) del(x op) (bool, *core.Violation) {
 	switch errClass(gerr) {
 	case "":
 		want := tag == curTag
+		if x.A == "stale" && w.hasSlot && w.slotVer != w.ver {
+			want = false
+		}
 		if w.http && x.A == "empty" {
 			want = true
 		}
@@ -658,6 +673,7 @@ func (w *seqWorld) get(x op) {
 		w.outcome = fmt.Sprintf("get:%d", rr.Code)
 		if rr.Code == 200 {
 			w.slot, w.hasSlot = rr.Header().Get("Etag"), true
+			w.slotVer = w.ver
 		}
 		return
 	}
@@ -665,6 +681,7 @@ func (w *seqWorld) get(x op) {
 	w.outcome = "get:" + errClass(err)
 	if err == nil {
 		w.slot, w.hasSlot = tag, true
+		w.slotVer = w.ver
 	}
 }
 
